@@ -2,6 +2,7 @@ package main
 
 import (
 	"fmt"
+	"os"
 	"reflect"
 	"sort"
 	"strings"
@@ -53,7 +54,7 @@ type watch struct {
 	obj    tengo.Object
 	deep   bool // full Canon must stay (a frozen private tree); else identity snapshot of the clean storage
 	snap   string
-	cut    string // identity snapshot (for deep watches: tells whether the change is behind an error payload)
+	cut    string // deep watches: full snapshot with error payloads cut off (tells whether a change is behind an error value)
 	origin string
 	since  int
 }
@@ -162,6 +163,48 @@ func (m *machine) identSnap(o tengo.Object, depth int) string {
 		return fmt.Sprintf("(fn@%d)", m.id(o))
 	}
 	return lib.Canon(o)
+}
+
+// canonNoErr: deep snapshot that does not look behind error values.
+func canonNoErr(o tengo.Object, depth int) string {
+	if depth > 64 {
+		return "(deep)"
+	}
+	var sb strings.Builder
+	switch v := o.(type) {
+	case *tengo.Error:
+		return "(e)"
+	case *tengo.Array:
+		sb.WriteString("(a")
+		for _, e := range v.Value {
+			sb.WriteString(" " + canonNoErr(e, depth+1))
+		}
+	case *tengo.ImmutableArray:
+		sb.WriteString("(ia")
+		for _, e := range v.Value {
+			sb.WriteString(" " + canonNoErr(e, depth+1))
+		}
+	case *tengo.Map, *tengo.ImmutableMap:
+		mv, tag := map[string]tengo.Object(nil), "(im"
+		if x, ok := v.(*tengo.Map); ok {
+			mv, tag = x.Value, "(m"
+		} else {
+			mv = v.(*tengo.ImmutableMap).Value
+		}
+		keys := make([]string, 0, len(mv))
+		for k := range mv {
+			keys = append(keys, k)
+		}
+		sort.Strings(keys)
+		sb.WriteString(tag)
+		for _, k := range keys {
+			sb.WriteString(" (" + lib.HexS(k) + " " + canonNoErr(mv[k], depth+1) + ")")
+		}
+	default:
+		return lib.Canon(o)
+	}
+	sb.WriteByte(')')
+	return sb.String()
 }
 
 // storeKey identifies the backing storage of a container (slices of one allocation share their end).
@@ -305,7 +348,7 @@ func errKind(err error) string {
 	for _, p := range [][2]string{{"not index-assignable", "not-index-assignable"}, {"not indexable", "not-indexable"},
 		{"invalid slice index type", "invalid-slice-index-type"}, {"invalid slice index", "invalid-slice-index"},
 		{"invalid index on error", "invalid-index-on-error"}, {"invalid index type", "invalid-index-type"},
-		{"index out of bounds", "index-out-of-bounds"}, {"invalid operator", "invalid-operator"}} {
+		{"index out of bounds", "index-out-of-bounds"}, {"invalid operator", "invalid-operator"}, {"invalid operation", "invalid-operator"}} {
 		if strings.Contains(t, p[0]) {
 			return p[1]
 		}
@@ -760,6 +803,14 @@ func (m *machine) doImport(op opRec) bool {
 	switch v.(type) {
 	case *tengo.ImmutableArray, *tengo.ImmutableMap:
 		m.clean[v] = true
+	case *tengo.Array, *tengo.Map:
+		sig, what := "exported-value-mutable", "a value exported from a module is immutable"
+		if op.K == "builtin" {
+			sig, what = "builtin-module-table-mutable", "a builtin-module table is immutable"
+		}
+		res.Dist("violation:" + m.stream + ":" + sig)
+		res.Violate(lib.Violation{Signature: sig, Stream: m.stream, Input: map[string]interface{}{"ops": append(append([]opRec{}, m.log...)), "module": op.Name},
+			Observed: lib.Canon(v), Expected: "immutable-array / immutable-map", Oracle: what})
 	}
 	m.importObj(v, map[tengo.Object]int{})
 	return true
@@ -862,11 +913,12 @@ func (m *machine) addWatch(h int, deep bool, origin string) {
 		return
 	}
 	m.watched[o] = true
-	w := &watch{handle: h, obj: o, deep: deep, origin: origin, since: len(m.log), cut: m.identSnap(o, 0)}
+	w := &watch{handle: h, obj: o, deep: deep, origin: origin, since: len(m.log)}
 	if deep {
 		w.snap = lib.Canon(o)
+		w.cut = canonNoErr(o, 0)
 	} else {
-		w.snap = w.cut
+		w.snap = m.identSnap(o, 0)
 	}
 	m.watches = append(m.watches, w)
 }
@@ -874,12 +926,12 @@ func (m *machine) addWatch(h int, deep bool, origin string) {
 func (m *machine) afterOp(op opRec, n0 int) {
 	// 1. every watched immutable value still has its contents
 	for _, w := range m.watches {
-		var now string
-		cut := m.identSnap(w.obj, 0)
+		var now, cut string
 		if w.deep {
 			now = lib.Canon(w.obj)
+			cut = canonNoErr(w.obj, 0)
 		} else {
-			now = cut
+			now = m.identSnap(w.obj, 0)
 		}
 		if now == w.snap {
 			continue
@@ -892,6 +944,7 @@ func (m *machine) afterOp(op opRec, n0 int) {
 		}
 		in := m.input()
 		in["watched"] = fmt.Sprintf("@%d (%s, immutable since op %d)", w.handle, w.origin, w.since)
+		res.Dist("violation:" + m.stream + ":" + sig)
 		res.Violate(lib.Violation{Signature: sig, Stream: m.stream, Input: in, Observed: now, Expected: w.snap, Oracle: oracle})
 		w.snap, w.cut = now, cut // report once
 	}
@@ -959,6 +1012,9 @@ func (m *machine) compare(ans string) int {
 		if it == "fuel" || it == "bad" {
 			res.Skipped++
 			res.Dist("model-left-domain:" + it)
+			if os.Getenv("C09_DEBUG") != "" && i < len(exp) {
+				fmt.Fprintln(os.Stderr, "LEFT", it, m.cmdsNonEmpty()[i], "impl:", exp[i], "regs:", debugRegs(m, m.cmdsNonEmpty()[i]))
+			}
 			return n
 		}
 		if i >= len(exp) {
@@ -987,4 +1043,15 @@ func (m *machine) cmdsNonEmpty() []string {
 		}
 	}
 	return out
+}
+
+func debugRegs(m *machine, cmd string) string {
+	var out []string
+	for _, f := range strings.Fields(strings.NewReplacer("(", " ", ")", " ").Replace(cmd)) {
+		var n int
+		if _, err := fmt.Sscan(f, &n); err == nil && n >= 0 && n < len(m.regs) {
+			out = append(out, fmt.Sprintf("@%d=%s", n, m.regs[n].TypeName()))
+		}
+	}
+	return strings.Join(out, " ")
 }
